@@ -1,4 +1,5 @@
 import XvcIgnore.GitLemmas
+import XvcIgnore.GitMono
 /-!
   # C16 — Tracked data files never enter Git
 
@@ -181,6 +182,99 @@ theorem C16_anchored_line_counterexample :
     check (gitRules t1) x.pathStr = .ignore ∧ allContents [] (trackUpdate "E".toList [] [x] t1) = allContents [] t1 ∧
     gitIgnored (trackUpdate "E".toList [] [x] t1) ["sub".toList, "data.bin".toList] false = false := by decide
 
+/-! ## what git ignored before, it ignores afterwards -/
+
+/-- a command whose date text and target names contain no line break (always true of `to_rfc2822` and of
+    file names xvc can track from a line-oriented command line) -/
+def Cmd.sane : Cmd → Prop
+  | .track date dirs files => '\n' ∉ date ∧ (∀ y ∈ dirs, '\n' ∉ y.name) ∧ (∀ y ∈ files, '\n' ∉ y.name)
+  | .handler date dirOps fileOps => '\n' ∉ date ∧ (∀ y ∈ dirOps, '\n' ∉ y.name) ∧ (∀ y ∈ fileOps, '\n' ∉ y.name)
+  | .move date files => '\n' ∉ date ∧ (∀ y ∈ files, '\n' ∉ y.name)
+
+theorem files_more (rules : List Pattern) (date : Str) (files : List Target) (t : Tree) (hdate : '\n' ∉ date)
+    (hn : ∀ y ∈ files, '\n' ∉ y.name) (ht : NoLoneCR t) :
+    ReadsLikeMore t (updateFileGitignores rules date files t) ∧ NoLoneCR (updateFileGitignores rules date files t) := by
+  unfold updateFileGitignores
+  apply writeGroups_readsLikeMore date _ _ t hdate _ ht
+  intro x hx
+  exact ⟨x.name, rfl, hn x (List.mem_filter.1 hx).1⟩
+
+theorem dirs_more (rules : List Pattern) (date : Str) (dirs : List Target) (t : Tree) (hdate : '\n' ∉ date)
+    (hn : ∀ y ∈ dirs, '\n' ∉ y.name) (ht : NoLoneCR t) :
+    ReadsLikeMore t (updateDirGitignores rules date dirs t) ∧ NoLoneCR (updateDirGitignores rules date dirs t) := by
+  unfold updateDirGitignores
+  apply writeGroups_readsLikeMore date _ _ t hdate _ ht
+  intro x hx
+  refine ⟨x.name ++ ['/'], rfl, ?_⟩
+  intro h
+  rcases List.mem_append.1 h with h | h
+  · exact hn x (List.mem_filter.1 hx).1 h
+  · simp at h
+
+theorem cmd_more (c : Cmd) (hc : c.sane) (t : Tree) (ht : NoLoneCR t) : ReadsLikeMore t (c.run t) ∧ NoLoneCR (c.run t) := by
+  cases c with
+  | track date dirs files =>
+    obtain ⟨hd, h1, h2⟩ := hc
+    obtain ⟨a1, a2⟩ := dirs_more (gitRules t) date dirs t hd h1 ht
+    obtain ⟨b1, b2⟩ := files_more (gitRules (updateDirGitignores (gitRules t) date dirs t)) date files _ hd h2 a2
+    exact ⟨fun comps => StackExt.trans (a1 comps) (b1 comps), b2⟩
+  | handler date dirOps fileOps =>
+    obtain ⟨hd, h1, h2⟩ := hc
+    simp only [Cmd.run, handlerUpdate]
+    have hs1 : ∀ y ∈ ((dedup dirOps.reverse).reverse.filter (fun d => check (gitRules t) d.pathStr == .noMatch)), '\n' ∉ y.name := by
+      intro y hy
+      have := (List.mem_filter.1 hy).1
+      rw [List.mem_reverse, mem_dedup, List.mem_reverse] at this
+      exact h1 y this
+    have hs2 : ∀ y ∈ ((dedup fileOps.reverse).reverse.filter (fun d => check (gitRules t) d.pathStr == .noMatch)), '\n' ∉ y.name := by
+      intro y hy
+      have := (List.mem_filter.1 hy).1
+      rw [List.mem_reverse, mem_dedup, List.mem_reverse] at this
+      exact h2 y this
+    obtain ⟨a1, a2⟩ := dirs_more (gitRules t) date _ t hd hs1 ht
+    obtain ⟨b1, b2⟩ := files_more (gitRules (updateDirGitignores (gitRules t) date
+      ((dedup dirOps.reverse).reverse.filter (fun d => check (gitRules t) d.pathStr == .noMatch)) t)) date _ _ hd hs2 a2
+    exact ⟨fun comps => StackExt.trans (a1 comps) (b1 comps), b2⟩
+  | move date files =>
+    obtain ⟨hd, h1⟩ := hc
+    exact files_more (gitRules t) date files t hd h1 ht
+
+/-- **Already ignored stays ignored**, for every history: an entry git ignores is still ignored after any
+    sequence of track / recheck-copy-move-bring / move updates — xvc only ever appends non-negated
+    patterns, on fresh lines.  Together with `C16_ignored_after_*_partial` this covers the case "xvc's
+    matcher says `Ignore` and git agrees" (when git does not agree: K12). -/
+theorem C16_still_ignored : ∀ (cmds : List Cmd) (t : Tree), (∀ c ∈ cmds, c.sane) → NoLoneCR t →
+    ∀ comps d, gitIgnored t comps d = true → gitIgnored (cmds.foldl (fun t c => c.run t) t) comps d = true
+  | [], _, _, _, _, _, h => h
+  | c :: cs, t, hs, ht, comps, d, h => by
+    simp only [List.foldl_cons]
+    obtain ⟨h1, h2⟩ := cmd_more c (hs c (by simp)) t ht
+    exact C16_still_ignored cs _ (fun c' hc' => hs c' (by simp [hc'])) h2 comps d
+      (gitIgnored_of_readsLikeMore t _ h1 comps d h)
+
+/-- a tracked path stays ignored through later commands: tracked now (by `C16_ignored_after_track_partial`),
+    ignored after any further history -/
+theorem C16_tracked_stays_ignored (date : Str) (dirs files : List Target) (t : Tree) (x : Target) (later : List Cmd)
+    (hx : x ∈ files) (hname : PlainName x.name) (hsane : ∀ y ∈ files, '\n' ∉ y.name)
+    (hdir : (contentAt x.dir t).isSome = true)
+    (hcheck : check (gitRules (updateDirGitignores (gitRules t) date dirs t)) x.pathStr = .noMatch)
+    (hd : '\n' ∉ date) (hdn : ∀ y ∈ dirs, '\n' ∉ y.name) (ht : NoLoneCR t) (hl : ∀ c ∈ later, c.sane) :
+    gitIgnored (later.foldl (fun t c => c.run t) (trackUpdate date dirs files t)) (x.dir ++ [x.name]) false = true := by
+  apply C16_still_ignored later _ hl
+  · exact (cmd_more (.track date dirs files) ⟨hd, hdn, hsane⟩ t ht).2
+  · exact C16_ignored_after_track_partial date dirs files t x hx hname hsane hdir hcheck
+
+example :
+    let t : Tree := .node "*.bin\n".toList [] []
+    NoLoneCR t ∧ gitIgnored t ["x.bin".toList] false = true ∧
+    (Cmd.track "D".toList [] [⟨[], "y.dat".toList⟩]).sane ∧
+    gitIgnored ((Cmd.track "D".toList [] [⟨[], "y.dat".toList⟩]).run t) ["x.bin".toList] false = true := by
+  refine ⟨?_, by decide, by simp only [Cmd.sane]; decide, by decide⟩
+  intro d c hc
+  match d with
+  | [] => simp [contentAt] at hc; subst hc; decide
+  | x :: r => simp [contentAt, contentAtDirs] at hc
+
 /-! ## the cache is never staged -/
 
 /-- the patterns `xvc init` writes, as git parses them — computed from the generated `GITIGNORE_INITIAL_CONTENT` -/
@@ -287,6 +381,10 @@ open Ign.Git in
 #print axioms C16_ignored_after_track_partial
 open Ign.Git in
 #print axioms C16_ignored_after_move_partial
+open Ign.Git in
+#print axioms C16_still_ignored
+open Ign.Git in
+#print axioms C16_tracked_stays_ignored
 open Ign.Git in
 #print axioms C16_whitelisted_counterexample
 open Ign.Git in
